@@ -317,4 +317,49 @@ def flagsSafe (handlers : List ExcKind) (script : List SchemaStmt) : Bool :=
       let f1 := if flagReadOk handlers f then (runFlags p f).1 else f
       flagReadOk handlers f1 && !(runFlags script f1).2 && (runFlags script f1).1 == (true, true)
 
+/-! ### reload path: `PseudonymManager.__init__` rebuilds the token tree from the stored rows -/
+
+/-- how the reload loop puts a stored token into the tree (generated from manager.py / tree.py) -/
+inductive ReloadMode
+  | direct                 -- self.tree.elements[token.get_hash()] = token
+  | gather (cap : Nat)     -- self.tree.gather_token(token): a token whose predecessor is not loaded yet waits in a
+                           -- buffer of `cap` entries (TokenTree.unchained_max_size), the oldest is dropped on overflow
+  deriving DecidableEq, Repr
+
+/-- a stored token as the reload loop sees it: its id and the id of its predecessor (`none` = genesis) -/
+structure Tok where
+  id : Nat
+  prev : Option Nat
+  deriving DecidableEq, Repr
+
+structure TreeSt where
+  elements : List Nat := []
+  unchained : List Tok := []     -- oldest first
+  deriving DecidableEq, Repr
+
+/-- `TokenTree.gather_token` with `_append_chain_reaction_token` (signature checks not modelled; `fuel` bounds the
+    chain reaction: its depth is at most the number of waiting tokens) -/
+def gather (cap : Nat) : Nat → TreeSt → Tok → TreeSt
+  | 0, st, _ => st
+  | fuel + 1, st, t =>
+    let known := match t.prev with
+      | none => true
+      | some p => st.elements.contains p
+    if !known then
+      let u := if st.unchained.contains t then st.unchained else st.unchained ++ [t]
+      { st with unchained := if u.length > cap then u.drop 1 else u }
+    else if st.elements.contains t.id then st
+    else
+      -- every waiting child of the newly chained token is taken out of the buffer and gathered in turn
+      let kids := st.unchained.filter (fun w => w.prev == some t.id)
+      let st1 : TreeSt := { elements := st.elements ++ [t.id],
+                            unchained := st.unchained.filter (fun w => w.prev != some t.id) }
+      kids.foldl (fun s w => gather cap fuel s w) st1
+
+/-- the ids in `tree.elements` after the reload loop ran over the stored tokens in the given (set-iteration) order -/
+def reload (mode : ReloadMode) (toks : List Tok) : List Nat :=
+  match mode with
+  | .direct => toks.map (·.id)
+  | .gather cap => (toks.foldl (fun st t => gather cap (st.unchained.length + 2) st t) {}).elements
+
 end Ipv8.C19
